@@ -62,8 +62,10 @@ RULE = ("One Hypothesis strategy mixes three labelled targets. (A, ~91 %) an "
         "(all layer classes but Aggregation) then put the generated layer into "
         "a one-layer functional keras Model, save it as .keras, h5 or "
         "SavedModel, reload it and compare outputs, variables, per-variable "
-        "constraint results on a random tensor and regularisation losses. "
-        "(B, ~8 %) a "
+        "constraint results on a random tensor and regularisation losses.  "
+        "Every case that carries a premade model description also materialises "
+        "a random lattice ensemble twice from equal configs and compares the "
+        "lattices. (B, ~8 %) a "
         "model from vlib.models.model_desc with <= 3 (thorough 6) operations "
         "from {sgd/adam step, hostile update, save_reload(.keras | h5 | "
         "SavedModel), from_config+set_weights}; after each restore: outputs on "
@@ -573,20 +575,32 @@ _CTX = {"dtype": None}
 # dtype="float64" layers and premade models (documented: **kwargs "passed to
 # keras.layers.Layer", premade `dtype` argument).
 GEN_FLOAT64_LAYERS = True
-# candidate defect C11-1 (see the widening report): CDF(dtype="float64") with
-# the default fixed input scaling multiplies a float32 constant with float64
-# tensors and cannot be called.
-GEN_FLOAT64_CDF = False
-# candidate defect C11-5: a float64 Lattice (also inside RTL) with a LIST of
-# kernel regularizers cannot be built when one item evaluates to the Python
-# constant 0.0 (zero amounts, torsion of a rank-1 lattice): tf.add_n of float32
-# and float64.  While False, Lattice / RTL cases with a regularizer list of two
-# or more items stay float32.
-GEN_FLOAT64_LATTICE_REGULARIZER_LISTS = False
-# candidate defects C11-2 / C11-3: CalibratedLinear(dtype=tf.float64) cannot
-# be constructed (Concatenate without dtype casts to float32 in front of the
-# float64 Linear layer) and every premade model drops dtype in get_config().
-GEN_FLOAT64_PREMADE = False
+# fixed in /repo 067ecf5: CDF(dtype="float64") with the default fixed input
+# scaling multiplied a float32 constant with float64 tensors.
+GEN_FLOAT64_CDF = True
+# fixed in /repo 5857939: a float64 Lattice (also inside RTL) with a LIST of
+# kernel regularizers could not be built when one item evaluated to the Python
+# constant 0.0 (tf.add_n of float32 and float64).
+GEN_FLOAT64_LATTICE_REGULARIZER_LISTS = True
+# fixed in /repo 38e8418 / aa72b10: CalibratedLinear(dtype=tf.float64) could
+# not be constructed (Concatenate without dtype) and every premade model
+# dropped dtype in get_config().
+GEN_FLOAT64_PREMADE = True
+
+
+def _cdf_with_keras_nonneg(name, spec):
+  """CDF (also inside ParallelCombination) with learned, monotone scaling."""
+  def one(a):
+    typ = a.get("scaling_type") or "fixed"
+    mono = a.get("scaling_mono")
+    mono = "increasing" if mono is None else mono     # the library's default
+    return typ != "fixed" and mono not in ("none", 0)
+  if name == "CDF":
+    return one(spec)
+  if name == "ParallelCombination":
+    return any(sub["kind"] == "cdf" and one(sub.get("args", sub))
+               for sub in spec["subs"])
+  return False
 
 
 def _base_kw():
@@ -2426,6 +2440,13 @@ def run_object(case, out):
       name == "CDF" or (name == "ParallelCombination" and any(
           sub["kind"] == "cdf" for sub in spec["subs"]))):
     dtype = None
+  if dtype is not None and _cdf_with_keras_nonneg(name, spec):
+    # tf_keras' NonNeg constraint multiplies the weight with a floatx()
+    # (float32) mask and cannot be applied to a float64 variable at all: a
+    # Keras limitation, not a behaviour of tensorflow_lattice.  CDF layers whose
+    # learned scaling carries that constraint stay float32.
+    dtype = None
+    out.label("dtype:float64-not-used(keras NonNeg on learned CDF scaling)")
   if (dtype is not None and not GEN_FLOAT64_LATTICE_REGULARIZER_LISTS and
       name in ("Lattice", "RTL") and isinstance(spec.get("reg"), dict) and
       len(spec["reg"].get("list") or []) >= 2):
@@ -2443,7 +2464,7 @@ def run_object(case, out):
 # saves to a .keras file but cannot be loaded back (from_config receives the
 # {"class_name": "__numpy__"} dict).  While False, such layers go through the
 # HDF5 format instead of .keras in the wrapped-model step.
-GEN_KERAS_FILE_NUMPY_KEYPOINTS = False
+GEN_KERAS_FILE_NUMPY_KEYPOINTS = True
 
 
 def _numpy_keypoints(name, spec):
@@ -2466,6 +2487,36 @@ def _cast_inputs(inputs):
       inputs)
 
 
+def _random_ensemble_probe(desc, aux, out, sig):
+  """A random lattice ensemble is a function of its config (random_seed)
+  alone: two equal configs materialised by set_random_lattice_ensemble, with
+  the global numpy stream somewhere else in between, get the same lattices."""
+  _, tfl, _ = _tf()
+  nf = len(desc["features"])
+  rank = desc.get("lattice_rank") or min(2, nf)
+  nl = desc.get("num_lattices") or 2
+  while nl * rank < nf:
+    nl += 1
+  got = []
+  for k in range(2):
+    cfg = tfl.configs.CalibratedLatticeEnsembleConfig(
+        feature_configs=M._feature_configs(desc),  # pylint: disable=protected-access
+        lattices="random", num_lattices=nl, lattice_rank=rank,
+        random_seed=desc["seed"])
+    np.random.seed((aux + 7 * k) % (2**32 - 1))
+    tfl.premade_lib.set_random_lattice_ensemble(cfg)
+    got.append(norm(cfg.lattices))
+  out.checks += 1
+  out.label("random-ensemble:materialised-twice")
+  if deep_diff(got[0], got[1]):
+    out.violate("set_random_lattice_ensemble gives different lattices for two "
+                "equal configs (random_seed=%s): %s vs %s" % (
+                    desc["seed"], got[0], got[1]),
+                kind="random-ensemble-structure", **sig)
+    return False
+  return True
+
+
 def _run_object(case, out, entry, registry, name, spec, rs, sig):
   tf, tfl, keras = _tf()
   if _CTX["dtype"] is not None:
@@ -2476,20 +2527,8 @@ def _run_object(case, out, entry, registry, name, spec, rs, sig):
     raise HarnessError("generator for %s built a %s" % (name, cls))
   out.nontrivial = n_opt >= 1
   out.info["optional_args"] = n_opt
-  if (name in ("CalibratedLatticeEnsembleConfig", "CalibratedLatticeEnsemble")
-      and spec["desc"]["kind"] == "ensemble_random"):
-    # a random ensemble is a function of random_seed alone: materialising it
-    # again (with the global numpy stream somewhere else) gives the same lists
-    np.random.seed((case["aux"] + 1) % (2**32 - 1))
-    again = build_model_config(spec)
-    first = obj if name.endswith("Config") else obj.model_config
-    out.checks += 1
-    out.label("random-ensemble:materialised-twice")
-    if deep_diff(norm(first.lattices), norm(again.lattices)):
-      out.violate("set_random_lattice_ensemble gives different lattices for "
-                  "the same random_seed: %s vs %s" % (
-                      norm(first.lattices), norm(again.lattices)),
-                  kind="random-ensemble-structure", **sig)
+  if isinstance(spec, dict) and "desc" in spec:
+    if not _random_ensemble_probe(spec["desc"], case["aux"], out, sig):
       return
   cfg = obj.get_config()
   cfg_norm = norm(cfg)
